@@ -502,16 +502,6 @@ theorem runClose_spec (N : Num ν) (na : Nat) (cmd : Char) (st : St ν) (s1 : Sr
   refine ⟨hb, ni.1, ni.2, fun h => by simp [St.after] at h, ?_⟩
   exact .close hns rfl rfl
 
-theorem isDrawing_blocks (fix : Bool) (cmd : Char) (hd : isDrawingCmd cmd = true) :
-    needStartBlocks fix cmd = true := by
-  unfold needStartBlocks
-  cases fix
-  · simp only [Bool.false_eq_true, if_false]
-    simp only [isDrawingCmd, Bool.or_eq_true, beq_iff_eq] at hd
-    rcases hd with (((((((((((((((((h | h) | h) | h) | h) | h) | h) | h) | h) | h) | h) | h) | h) | h) | h) | h) | h) | h) <;>
-      subst h <;> decide
-  · simpa using hd
-
 theorem edgeCmd_drawing (N : Num ν) (na : Nat) (cmd : Char) (st : St ν) (m : PM (EdgeOut ν))
     (h : edgeCmd N na cmd st = some m) : isDrawingCmd cmd = true := by
   unfold edgeCmd at h
@@ -532,9 +522,9 @@ theorem edgeCmd_drawing (N : Num ν) (na : Nat) (cmd : Char) (st : St ν) (m : P
   · rename_i hc; simp only [Bool.or_eq_true, beq_iff_eq] at hc; rcases hc with hc | hc <;> simp [hc]
   · cases h
 
-theorem step_spec (fix : Bool) (N : Num ν) (na : Nat) (st : St ν) (s : Src) (hs : s.inp ≠ [])
+theorem step_spec (N : Num ν) (na : Nat) (st : St ν) (s : Src) (hs : s.inp ≠ [])
     (hz : st.implicit ≠ 'z') (hZ : st.implicit ≠ 'Z') :
-    StepSpec N na st s.len (step fix N na st s) := by
+    StepSpec N na st s.len (step N na st s) := by
   unfold step
   split
   · simp only [StepSpec, List.map_nil]; exact .plain
@@ -543,7 +533,7 @@ theorem step_spec (fix : Bool) (N : Num ν) (na : Nat) (st : St ν) (s : Src) (h
     unfold dispatchCmd
     split
     · rename_i m hm
-      have hbl := isDrawing_blocks fix _ (edgeCmd_drawing N na _ st m hm)
+      have hbl := edgeCmd_drawing N na _ st m hm
       have hns : st.needStart = false := by
         cases h : st.needStart
         · rfl
@@ -554,8 +544,7 @@ theorem step_spec (fix : Bool) (N : Num ν) (na : Nat) (st : St ν) (s : Src) (h
         have hns : st.needStart = false := by
           cases h : st.needStart
           · rfl
-          · have hbl : needStartBlocks fix (cmdOf st s) = true := by
-              apply isDrawing_blocks
+          · have hbl : isDrawingCmd (cmdOf st s) = true := by
               rcases (by simpa using ha : cmdOf st s = 'a' ∨ cmdOf st s = 'A') with h' | h' <;>
                 (rw [h']; decide)
             simp [h, hbl] at hchk
@@ -568,8 +557,7 @@ theorem step_spec (fix : Bool) (N : Num ν) (na : Nat) (st : St ν) (s : Src) (h
             have hns : st.needStart = false := by
               cases h : st.needStart
               · rfl
-              · have hbl : needStartBlocks fix (cmdOf st s) = true := by
-                  apply isDrawing_blocks
+              · have hbl : isDrawingCmd (cmdOf st s) = true := by
                   rcases hzz' with h' | h' <;> (rw [h']; decide)
                 simp [h, hbl] at hchk
             have halpha : s.cur.isAlpha = true := by
@@ -627,13 +615,13 @@ theorem failCalls_nest {st : St ν} {ne : Bool} {tr : List (PCall ν)} (h : Fail
   | plain => cases hh : st.needEnd <;> simp [nestState]
   | inMove => cases hh : st.needEnd <;> simp [nestState]
 
-theorem loop_succ (fix : Bool) (N : Num ν) (na : Nat) (stop : Option Char) (fuel : Nat) (st : St ν) (s : Src) :
-    loop fix N na stop (fuel + 1) st s =
+theorem loop_succ (N : Num ν) (na : Nat) (stop : Option Char) (fuel : Nat) (st : St ν) (s : Src) :
+    loop N na stop (fuel + 1) st s =
       if s.fin then ⟨closing st.needEnd s, .ok, s⟩
       else if stop == some s.cur then ⟨closing st.needEnd s, .ok, s⟩
       else
-        match step fix N na st s with
-        | .cont st' s' em => (loop fix N na stop fuel st' s'.skipWs).cons em
+        match step N na st s with
+        | .cont st' s' em => (loop N na stop fuel st' s'.skipWs).cons em
         | .fail e ne s' em => ⟨em ++ closing ne s', .err e, s'⟩
         | .panic s' em => ⟨em, .panic, s'⟩ := rfl
 
@@ -641,9 +629,9 @@ theorem inp_ne_of_not_fin {s : Src} (h : ¬ s.fin = true) : s.inp ≠ [] := by
   intro hn; apply h; simp [Src.fin, hn]
 
 /-- the fuel `length + 1` never runs out -/
-theorem loop_not_stuck (fix : Bool) (N : Num ν) (na : Nat) (stop : Option Char) (fuel : Nat) :
+theorem loop_not_stuck (N : Num ν) (na : Nat) (stop : Option Char) (fuel : Nat) :
     ∀ (st : St ν) (s : Src), s.len < fuel → st.implicit ≠ 'z' → st.implicit ≠ 'Z' →
-      (loop fix N na stop fuel st s).outcome ≠ .stuck := by
+      (loop N na stop fuel st s).outcome ≠ .stuck := by
   induction fuel with
   | zero => intro st s h; omega
   | succ fuel ih =>
@@ -654,8 +642,8 @@ theorem loop_not_stuck (fix : Bool) (N : Num ν) (na : Nat) (stop : Option Char)
     by_cases hstop : (stop == some s.cur) = true
     · simp [hf, hstop]
     simp only [hf, hstop, if_false, Bool.false_eq_true]
-    have sp := step_spec fix N na st s (inp_ne_of_not_fin hf) hz hZ
-    cases hstep : step fix N na st s with
+    have sp := step_spec N na st s (inp_ne_of_not_fin hf) hz hZ
+    cases hstep : step N na st s with
     | cont st' s' em =>
       rw [hstep] at sp
       simp only [StepSpec] at sp
@@ -674,10 +662,10 @@ theorem trace_cons (em : List (Emit ν)) (r : Result ν) :
 
 /-- from a non-defective state the calls are prefix-safe, and properly closed when the parser
 returns -/
-theorem loop_nest (fix : Bool) (N : Num ν) (na : Nat) (stop : Option Char) (fuel : Nat) :
+theorem loop_nest (N : Num ν) (na : Nat) (stop : Option Char) (fuel : Nat) :
     ∀ (st : St ν) (s : Src), Good st → st.implicit ≠ 'z' → st.implicit ≠ 'Z' →
-      ∃ b, nestState st.needEnd (loop fix N na stop fuel st s).trace = some b ∧
-        ((loop fix N na stop fuel st s).closed → b = false) := by
+      ∃ b, nestState st.needEnd (loop N na stop fuel st s).trace = some b ∧
+        ((loop N na stop fuel st s).closed → b = false) := by
   induction fuel with
   | zero =>
     intro st s _ _ _
@@ -697,8 +685,8 @@ theorem loop_nest (fix : Bool) (N : Num ν) (na : Nat) (stop : Option Char) (fue
     by_cases hstop : (stop == some s.cur) = true
     · simpa [hf, hstop] using fin_case
     simp only [hf, hstop, if_false, Bool.false_eq_true]
-    have sp := step_spec fix N na st s (inp_ne_of_not_fin hf) hz hZ
-    cases hstep : step fix N na st s with
+    have sp := step_spec N na st s (inp_ne_of_not_fin hf) hz hZ
+    cases hstep : step N na st s with
     | cont st' s' em =>
       rw [hstep] at sp
       simp only [StepSpec] at sp
@@ -723,86 +711,13 @@ theorem loop_nest (fix : Bool) (N : Num ν) (na : Nat) (stop : Option Char) (fue
         cases h : st.needEnd <;> simp [nestState]
       · intro hc; rcases hc with h | ⟨e, h⟩ <;> simp at h
 
-/-- the trace is empty or starts with a `begin` -/
-def startsOk : List (PCall ν) → Prop
-  | [] => True
-  | .begin _ _ :: _ => True
-  | _ => False
-
-/-- from a state with no open sub-path (in particular the initial state of the current code):
-if the first call is a `begin`, the calls are prefix-safe and closed when the parser returns -/
-theorem loop_nest_start (fix : Bool) (N : Num ν) (na : Nat) (stop : Option Char) (fuel : Nat) :
-    ∀ (st : St ν) (s : Src), st.needEnd = false → st.implicit ≠ 'z' → st.implicit ≠ 'Z' →
-      startsOk (loop fix N na stop fuel st s).trace →
-      ∃ b, nestState false (loop fix N na stop fuel st s).trace = some b ∧
-        ((loop fix N na stop fuel st s).closed → b = false) := by
-  induction fuel with
-  | zero =>
-    intro st s _ _ _ _
-    refine ⟨false, by simp [loop, Result.trace, nestState], fun _ => rfl⟩
-  | succ fuel ih =>
-    intro st s hne hz hZ
-    rw [loop_succ]
-    by_cases hf : s.fin = true
-    · intro _
-      refine ⟨false, ?_, fun _ => rfl⟩
-      simp [hf, Result.trace, closing, hne, nestState]
-    by_cases hstop : (stop == some s.cur) = true
-    · intro _
-      refine ⟨false, ?_, fun _ => rfl⟩
-      simp [hf, hstop, Result.trace, closing, hne, nestState]
-    simp only [hf, hstop, if_false, Bool.false_eq_true]
-    have sp := step_spec fix N na st s (inp_ne_of_not_fin hf) hz hZ
-    cases hstep : step fix N na st s with
-    | cont st' s' em =>
-      rw [hstep] at sp
-      simp only [StepSpec] at sp
-      obtain ⟨_, hz', hZ', _, hcalls⟩ := sp
-      simp only [trace_cons]
-      generalize em.map Prod.snd = tr0 at hcalls
-      cases hcalls with
-      | edges _ hns hne' hns' hed =>
-        cases tr0 with
-        | nil =>
-          simp only [List.nil_append]
-          intro hso
-          obtain ⟨b, hb, hcl⟩ := ih st' s'.skipWs (by rw [hne', hne]) hz' hZ' hso
-          exact ⟨b, hb, fun hc => hcl (by simpa [Result.closed, Result.cons] using hc)⟩
-        | cons c r =>
-          intro hso
-          have hc := hed c (by simp)
-          cases c <;> simp [isEdge] at hc <;> simp [startsOk] at hso
-      | move p a hne' hns' =>
-        intro _
-        obtain ⟨b, hb, hcl⟩ := loop_nest fix N na stop fuel st' s'.skipWs (Or.inl hne') hz' hZ'
-        refine ⟨b, ?_, fun hc => hcl (by simpa [Result.closed, Result.cons] using hc)⟩
-        simp only [hne, Bool.false_eq_true, if_false, List.nil_append, List.cons_append, nestState]
-        rw [hne'] at hb; exact hb
-      | close hns hne' hns' =>
-        intro hso
-        simp [startsOk] at hso
-    | fail e ne s' em =>
-      rw [hstep] at sp
-      simp only [StepSpec] at sp
-      intro _
-      refine ⟨false, ?_, fun _ => rfl⟩
-      simp only [Result.trace, List.map_append, closing_snd]
-      have := failCalls_nest sp
-      rw [hne] at this; exact this
-    | panic s' em =>
-      rw [hstep] at sp
-      simp only [StepSpec] at sp
-      intro _
-      refine ⟨false, ?_, fun _ => rfl⟩
-      simp [Result.trace, sp.1, nestState]
-
 /-- no panic: the arc conversion does not panic, and either there are no custom attributes or
 the attribute buffer has been filled (always the case after a move-to) -/
-theorem loop_no_panic (fix : Bool) (N : Num ν) (na : Nat) (stop : Option Char)
+theorem loop_no_panic (N : Num ν) (na : Nat) (stop : Option Char)
     (harc : ∀ pos a, N.arc pos a ≠ none) (fuel : Nat) :
     ∀ (st : St ν) (s : Src), st.implicit ≠ 'z' → st.implicit ≠ 'Z' →
       (na = 0 ∨ (st.needStart = false → st.attrs.length = na)) →
-      (loop fix N na stop fuel st s).outcome ≠ .panic := by
+      (loop N na stop fuel st s).outcome ≠ .panic := by
   induction fuel with
   | zero => intro st s _ _ _; simp [loop]
   | succ fuel ih =>
@@ -813,8 +728,8 @@ theorem loop_no_panic (fix : Bool) (N : Num ν) (na : Nat) (stop : Option Char)
     by_cases hstop : (stop == some s.cur) = true
     · simp [hf, hstop]
     simp only [hf, hstop, if_false, Bool.false_eq_true]
-    have sp := step_spec fix N na st s (inp_ne_of_not_fin hf) hz hZ
-    cases hstep : step fix N na st s with
+    have sp := step_spec N na st s (inp_ne_of_not_fin hf) hz hZ
+    cases hstep : step N na st s with
     | cont st' s' em =>
       rw [hstep] at sp
       simp only [StepSpec] at sp
@@ -1019,8 +934,8 @@ theorem afterCmd_reach (s : Src) : Reach s (afterCmd s) := by
   · exact Reach.adv s
   · exact Reach.refl _
 
-theorem step_pos (fix : Bool) (N : Num ν) (na : Nat) (st : St ν) (s : Src) :
-    StepPos s (step fix N na st s) := by
+theorem step_pos (N : Num ν) (na : Nat) (st : St ν) (s : Src) :
+    StepPos s (step N na st s) := by
   have ha := afterCmd_reach s
   have here : ErrAt s (.missingMoveTo (cmdOf st s) s.line s.col) := ⟨s, Reach.refl _, rfl, rfl⟩
   have here' : ErrAt s (.command (cmdOf st s) s.line s.col) := ⟨s, Reach.refl _, rfl, rfl⟩
@@ -1068,10 +983,10 @@ theorem step_pos (fix : Bool) (N : Num ν) (na : Nat) (st : St ν) (s : Src) :
 
 /-- an error returned by the loop points at a source reached from where the loop started, and
 so does the final source -/
-theorem loop_pos (fix : Bool) (N : Num ν) (na : Nat) (stop : Option Char) (fuel : Nat) :
+theorem loop_pos (N : Num ν) (na : Nat) (stop : Option Char) (fuel : Nat) :
     ∀ (st : St ν) (s : Src),
-      Reach s (loop fix N na stop fuel st s).final ∧
-      ∀ e, (loop fix N na stop fuel st s).outcome = .err e → ErrAt s e := by
+      Reach s (loop N na stop fuel st s).final ∧
+      ∀ e, (loop N na stop fuel st s).outcome = .err e → ErrAt s e := by
   induction fuel with
   | zero => intro st s; exact ⟨Reach.refl _, fun e h => by simp [loop] at h⟩
   | succ fuel ih =>
@@ -1083,8 +998,8 @@ theorem loop_pos (fix : Bool) (N : Num ν) (na : Nat) (stop : Option Char) (fuel
     · simp only [hf, hstop, if_true, if_false, Bool.false_eq_true]
       exact ⟨Reach.refl _, fun e h => by simp at h⟩
     simp only [hf, hstop, if_false, Bool.false_eq_true]
-    have sp := step_pos fix N na st s
-    cases hstep : step fix N na st s with
+    have sp := step_pos N na st s
+    cases hstep : step N na st s with
     | cont st' s' em =>
       rw [hstep] at sp
       simp only [StepPos] at sp
@@ -1232,9 +1147,9 @@ theorem lexExp_list (s : Src) :
     have h2 := lexMant_list s.adv
     have h3 : s.adv.inp = r := by simp [adv_inp, h]
     by_cases hc : (c == 'e' || c == 'E') = true
-    · simp only [lexExpL, hc, if_true, lexExpTail]
-      exact ⟨by rw [show (lexMant s.adv).1 = (lexMantL r).1 from by rw [h2.1, h3]],
-             by rw [show (lexMant s.adv).2.inp = (lexMantL r).2 from by rw [h2.2, h3]]⟩
+    · have e1 : (lexExpTail s.adv).1 = (lexMantL r).1 := by rw [← h3]; exact h2.1
+      have e2 : (lexExpTail s.adv).2.inp = (lexMantL r).2 := by rw [← h3]; exact h2.2
+      simp only [lexExpL, hc, if_true, e1, e2, and_self]
     · simp [lexExpL, hc, h]
 
 theorem lexNum_list (s : Src) :
@@ -1264,11 +1179,620 @@ theorem parseNumber_print (N : Num ν) (pn : ν → List Char) (hp : PrintOK N p
   obtain ⟨c, l, hcl, hsep⟩ := hp.head x
   have hskip : s.skipWs.inp = pn x ++ rest := by
     have : isSep ' ' = true := by decide
-    simp [Src.skipWs, advWhile_inp, hs, hcl, List.dropWhile_cons, this, hsep]
+    simp [Src.skipWs, advWhile_inp, hs, hcl, this, hsep]
   have hl := lexNum_list s.skipWs
   rw [hskip, hp.token x rest hb] at hl
   refine ⟨(lexNum s.skipWs).2, ?_, hl.2⟩
   unfold parseNumber
   simp only [hl.1, hp.valid x, if_true, hp.value x]
+
+theorem bind_of_ok {α β} {m : PM α} {f : α → PM β} {s s1 : Src} {a : α} (h : m s = .ok a s1) :
+    (m >>= f) s = f a s1 := by
+  simp only [bind, PM.bind, h]
+
+theorem boundary_cons (r : List Char) : Boundary (' ' :: r) := Or.inr ⟨r, rfl⟩
+
+theorem printAttrs_boundary (pn : ν → List Char) (a : List ν) (rest : List Char)
+    (hb : Boundary rest) : Boundary (printAttrs pn a ++ rest) := by
+  cases a with
+  | nil => simpa [printAttrs] using hb
+  | cons x r => exact Or.inr ⟨_, by simp [printAttrs]; rfl⟩
+
+theorem parsePoint_print (N : Num ν) (pn : ν → List Char) (hp : PrintOK N pn) (p cur : Pt ν)
+    (rest : List Char) (hb : Boundary rest) (s : Src) (hs : s.inp = printPt pn p ++ rest) :
+    ∃ s', parsePoint N false cur s = .ok p s' ∧ s'.inp = rest := by
+  have hs' : s.inp = ' ' :: (pn p.1 ++ (' ' :: (pn p.2 ++ rest))) := by
+    simp [hs, printPt]
+  obtain ⟨s1, h1, hi1⟩ := parseNumber_print N pn hp p.1 _ (boundary_cons _) s hs'
+  obtain ⟨s2, h2, hi2⟩ := parseNumber_print N pn hp p.2 rest hb s1 hi1
+  refine ⟨s2, ?_, hi2⟩
+  unfold parsePoint
+  rw [bind_of_ok h1, bind_of_ok h2]
+  simp [pure, PM.pure, relX, relY]
+
+theorem parseAttrs_print (N : Num ν) (pn : ν → List Char) (hp : PrintOK N pn) (a : List ν)
+    (rest : List Char) (hb : Boundary rest) (s : Src) (hs : s.inp = printAttrs pn a ++ rest) :
+    ∃ s', parseAttrs N a.length s = .ok a s' ∧ s'.inp = rest := by
+  induction a generalizing s with
+  | nil => exact ⟨s, rfl, by simpa [printAttrs] using hs⟩
+  | cons x r ih =>
+    have hs' : s.inp = ' ' :: (pn x ++ (printAttrs pn r ++ rest)) := by simp [hs, printAttrs]
+    obtain ⟨s1, h1, hi1⟩ :=
+      parseNumber_print N pn hp x _ (printAttrs_boundary pn r rest hb) s hs'
+    obtain ⟨s2, h2, hi2⟩ := ih s1 hi1
+    refine ⟨s2, ?_, hi2⟩
+    simp only [List.length_cons, parseAttrs]
+    rw [bind_of_ok h1, bind_of_ok h2]
+    rfl
+
+theorem parseEndpoint_print (N : Num ν) (pn : ν → List Char) (hp : PrintOK N pn) (p cur : Pt ν)
+    (a : List ν) (rest : List Char) (hb : Boundary rest) (s : Src)
+    (hs : s.inp = printPt pn p ++ (printAttrs pn a ++ rest)) :
+    ∃ s', parseEndpoint N a.length false cur s = .ok (p, a) s' ∧ s'.inp = rest := by
+  obtain ⟨s1, h1, hi1⟩ :=
+    parsePoint_print N pn hp p cur _ (printAttrs_boundary pn a rest hb) s hs
+  obtain ⟨s2, h2, hi2⟩ := parseAttrs_print N pn hp a rest hb s1 hi1
+  refine ⟨s2, ?_, hi2⟩
+  unfold parseEndpoint
+  rw [bind_of_ok h1, bind_of_ok h2]
+  rfl
+
+
+/-! one loop iteration on a printed command -/
+
+theorem cur_of_inp {s : Src} {c : Char} {r : List Char} (h : s.inp = c :: r) : s.cur = c := by
+  simp [Src.cur, h]
+
+theorem step_move_print (N : Num ν) (pn : ν → List Char) (hp : PrintOK N pn) (st : St ν) (p : Pt ν)
+    (a : List ν) (rest : List Char) (hb : Boundary rest) (s : Src)
+    (hs : s.inp = 'M' :: (printPt pn p ++ (printAttrs pn a ++ rest))) :
+    ∃ st' s' em, step N a.length st s = .cont st' s' em ∧ s'.inp = rest ∧
+      em.map Prod.snd = (if st.needEnd then [.end_ false] else []) ++ [.begin p a] ∧
+      st'.needEnd = true ∧ st'.needStart = false := by
+  have hc := cur_of_inp hs
+  have hadv : s.adv.inp = printPt pn p ++ (printAttrs pn a ++ rest) := by simp [adv_inp, hs]
+  obtain ⟨s', h1, hi⟩ := parseEndpoint_print N pn hp p st.cur a rest hb s.adv hadv
+  have hal : Char.isAlpha 'M' = true := by decide
+  have hlow : Char.isLower 'M' = false := by decide
+  have hstep : step N a.length st s =
+      .cont ({ st with cur := p, attrs := a, first := p, needEnd := true,
+                       needStart := false }.after 'M') s'
+        ((if st.needEnd then emitAt s.adv [.end_ false] else []) ++ emitAt s' [.begin p a]) := by
+    have hblk : isDrawingCmd 'M' = false := by decide
+    simp only [step, cmdOf, afterCmd, hc, hal, if_true, hblk, Bool.and_false, Bool.false_eq_true, if_false]
+    simp [dispatchCmd, edgeCmd, runMove, hlow, h1]
+  refine ⟨_, s', _, hstep, hi, ?_, rfl, rfl⟩
+  cases st.needEnd <;> simp [emitAt]
+
+theorem step_line_print (N : Num ν) (pn : ν → List Char) (hp : PrintOK N pn) (st : St ν) (p : Pt ν)
+    (a : List ν) (rest : List Char) (hb : Boundary rest) (s : Src) (hns : st.needStart = false)
+    (hs : s.inp = 'L' :: (printPt pn p ++ (printAttrs pn a ++ rest))) :
+    ∃ st' s' em, step N a.length st s = .cont st' s' em ∧ s'.inp = rest ∧
+      em.map Prod.snd = [.line p a] ∧ st'.needEnd = st.needEnd ∧ st'.needStart = false := by
+  have hc := cur_of_inp hs
+  have hadv : s.adv.inp = printPt pn p ++ (printAttrs pn a ++ rest) := by simp [adv_inp, hs]
+  obtain ⟨s', h1, hi⟩ := parseEndpoint_print N pn hp p st.cur a rest hb s.adv hadv
+  have hal : Char.isAlpha 'L' = true := by decide
+  have hlow : Char.isLower 'L' = false := by decide
+  have hcmd : cmdL N a.length false st s.adv =
+      .ok ([.line p a], { st with cur := p, attrs := a }) s' := by
+    unfold cmdL; rw [bind_of_ok h1]; rfl
+  have hstep : step N a.length st s =
+      .cont (({ st with cur := p, attrs := a } : St ν).after 'L') s' (emitAt s' [.line p a]) := by
+    simp only [step, cmdOf, afterCmd, hc, hal, if_true, hns, Bool.false_and, Bool.false_eq_true, if_false]
+    simp [dispatchCmd, edgeCmd, runEdge, hlow, hcmd]
+    try simp [hns]
+  exact ⟨_, s', _, hstep, hi, by simp [emitAt], rfl, by simp [St.after, hns]⟩
+
+theorem step_quad_print (N : Num ν) (pn : ν → List Char) (hp : PrintOK N pn) (st : St ν)
+    (c p : Pt ν) (a : List ν) (rest : List Char) (hb : Boundary rest) (s : Src)
+    (hns : st.needStart = false)
+    (hs : s.inp = 'Q' :: (printPt pn c ++ (printPt pn p ++ (printAttrs pn a ++ rest)))) :
+    ∃ st' s' em, step N a.length st s = .cont st' s' em ∧ s'.inp = rest ∧
+      em.map Prod.snd = [.quad c p a] ∧ st'.needEnd = st.needEnd ∧ st'.needStart = false := by
+  have hc := cur_of_inp hs
+  have hadv : s.adv.inp = printPt pn c ++ (printPt pn p ++ (printAttrs pn a ++ rest)) := by
+    simp [adv_inp, hs]
+  obtain ⟨s1, h1, hi1⟩ := parsePoint_print N pn hp c st.cur _
+    (Or.inr ⟨_, by simp [printPt]; rfl⟩) s.adv hadv
+  obtain ⟨s', h2, hi⟩ := parseEndpoint_print N pn hp p st.cur a rest hb s1 hi1
+  have hal : Char.isAlpha 'Q' = true := by decide
+  have hlow : Char.isLower 'Q' = false := by decide
+  have hcmd : cmdQ N a.length false st s.adv =
+      .ok ([.quad c p a], { st with cur := p, attrs := a, prevQuad := some c }) s' := by
+    unfold cmdQ; rw [bind_of_ok h1, bind_of_ok h2]; rfl
+  have hstep : step N a.length st s =
+      .cont (({ st with cur := p, attrs := a, prevQuad := some c } : St ν).after 'Q') s'
+        (emitAt s' [.quad c p a]) := by
+    simp only [step, cmdOf, afterCmd, hc, hal, if_true, hns, Bool.false_and, Bool.false_eq_true, if_false]
+    simp [dispatchCmd, edgeCmd, runEdge, hlow, hcmd]
+    try simp [hns]
+  exact ⟨_, s', _, hstep, hi, by simp [emitAt], rfl, by simp [St.after, hns]⟩
+
+theorem step_cubic_print (N : Num ν) (pn : ν → List Char) (hp : PrintOK N pn) (st : St ν)
+    (c1 c2 p : Pt ν) (a : List ν) (rest : List Char) (hb : Boundary rest) (s : Src)
+    (hns : st.needStart = false)
+    (hs : s.inp = 'C' :: (printPt pn c1 ++ (printPt pn c2 ++
+      (printPt pn p ++ (printAttrs pn a ++ rest))))) :
+    ∃ st' s' em, step N a.length st s = .cont st' s' em ∧ s'.inp = rest ∧
+      em.map Prod.snd = [.cubic c1 c2 p a] ∧ st'.needEnd = st.needEnd ∧
+      st'.needStart = false := by
+  have hc := cur_of_inp hs
+  have hadv : s.adv.inp = printPt pn c1 ++ (printPt pn c2 ++
+      (printPt pn p ++ (printAttrs pn a ++ rest))) := by simp [adv_inp, hs]
+  obtain ⟨s1, h1, hi1⟩ := parsePoint_print N pn hp c1 st.cur _
+    (Or.inr ⟨_, by simp [printPt]; rfl⟩) s.adv hadv
+  obtain ⟨s2, h2, hi2⟩ := parsePoint_print N pn hp c2 st.cur _
+    (Or.inr ⟨_, by simp [printPt]; rfl⟩) s1 hi1
+  obtain ⟨s', h3, hi⟩ := parseEndpoint_print N pn hp p st.cur a rest hb s2 hi2
+  have hal : Char.isAlpha 'C' = true := by decide
+  have hlow : Char.isLower 'C' = false := by decide
+  have hcmd : cmdC N a.length false st s.adv =
+      .ok ([.cubic c1 c2 p a], { st with cur := p, attrs := a, prevCubic := some c2 }) s' := by
+    unfold cmdC; rw [bind_of_ok h1, bind_of_ok h2, bind_of_ok h3]; rfl
+  have hstep : step N a.length st s =
+      .cont (({ st with cur := p, attrs := a, prevCubic := some c2 } : St ν).after 'C') s'
+        (emitAt s' [.cubic c1 c2 p a]) := by
+    simp only [step, cmdOf, afterCmd, hc, hal, if_true, hns, Bool.false_and, Bool.false_eq_true, if_false]
+    simp [dispatchCmd, edgeCmd, runEdge, hlow, hcmd]
+    try simp [hns]
+  exact ⟨_, s', _, hstep, hi, by simp [emitAt], rfl, by simp [St.after, hns]⟩
+
+theorem step_close_print (N : Num ν) (na : Nat) (st : St ν) (rest : List Char) (s : Src)
+    (hns : st.needStart = false) (hs : s.inp = 'Z' :: rest) :
+    ∃ st' s' em, step N na st s = .cont st' s' em ∧ s'.inp = rest ∧
+      em.map Prod.snd = [.end_ true] ∧ st'.needEnd = false ∧ st'.needStart = true := by
+  have hc := cur_of_inp hs
+  have hadv : s.adv.inp = rest := by simp [adv_inp, hs]
+  have hal : Char.isAlpha 'Z' = true := by decide
+  have hstep : step N na st s =
+      .cont (({ st with cur := st.first, needEnd := false, needStart := true } : St ν).after 'Z')
+        s.adv (emitAt s.adv [.end_ true]) := by
+    simp only [step, cmdOf, afterCmd, hc, hal, if_true, hns, Bool.false_and, Bool.false_eq_true, if_false]
+    simp [dispatchCmd, edgeCmd, runClose]
+  exact ⟨_, s.adv, _, hstep, hadv, by simp [emitAt], rfl, rfl⟩
+
+/-! the whole printed path -/
+
+/-- every endpoint of the trace carries `na` attributes -/
+def callAttrsOK (na : Nat) : PCall ν → Prop
+  | .begin _ a => a.length = na
+  | .line _ a => a.length = na
+  | .quad _ _ a => a.length = na
+  | .cubic _ _ _ a => a.length = na
+  | .end_ _ => True
+
+def AttrsLen (na : Nat) (tr : List (PCall ν)) : Prop := ∀ c ∈ tr, callAttrsOK na c
+
+theorem printCalls_boundary (pn : ν → List Char) (tr : List (PCall ν)) :
+    Boundary (printCalls pn tr) := by
+  induction tr with
+  | nil => exact Or.inl rfl
+  | cons c r ih =>
+    cases c with
+    | end_ b => cases b
+                · simpa [printCalls, printCall] using ih
+                · exact Or.inr ⟨_, by simp [printCalls, printCall]; rfl⟩
+    | _ => exact Or.inr ⟨_, by simp [printCalls, printCall]; rfl⟩
+
+theorem skipWs_space_letter (X : Src) (c : Char) (r : List Char) (hc : isSep c = false)
+    (hX : X.inp = ' ' :: c :: r) : X.skipWs.inp = c :: r := by
+  have : isSep ' ' = true := by decide
+  simp [Src.skipWs, advWhile_inp, hX, this, hc]
+
+theorem loop_roundtrip (N : Num ν) (pn : ν → List Char) (hp : PrintOK N pn) (na : Nat) :
+    ∀ (tr : List (PCall ν)) (inSub : Bool), wellNestedFrom inSub tr = true → AttrsLen na tr →
+    ∀ (fuel : Nat) (st : St ν) (X : Src), X.inp = printCalls pn tr → X.inp.length < fuel →
+      (inSub = true → st.needEnd = true) →
+      (st.needStart = true → st.needEnd = false ∧ inSub = false) →
+      (loop N na none fuel st X.skipWs).trace =
+        (if !inSub && st.needEnd then [.end_ false] else []) ++ tr ∧
+      (loop N na none fuel st X.skipWs).outcome = .ok := by
+  intro tr
+  induction tr with
+  | nil =>
+    intro inSub hwn _ fuel st X hX hfuel h1 h2
+    have hin : inSub = false := by cases inSub <;> simp [wellNestedFrom] at hwn ⊢
+    subst hin
+    cases fuel with
+    | zero => omega
+    | succ fuel =>
+      have hfin : X.skipWs.fin = true := by
+        simp [Src.fin, Src.skipWs, advWhile_inp, hX, printCalls]
+      rw [loop_succ]
+      simp only [hfin, if_true]
+      refine ⟨?_, trivial⟩
+      simp only [Result.trace, closing_snd]
+      cases st.needEnd <;> simp
+  | cons c r ih =>
+    intro inSub hwn hal fuel st X hX hfuel h1 h2
+    have halr : AttrsLen na r := fun d hd => hal d (List.mem_cons_of_mem _ hd)
+    have hc := hal c (by simp)
+    have hbr := printCalls_boundary pn r
+    cases fuel with
+    | zero => omega
+    | succ fuel =>
+    -- common: run one iteration given the step result
+    have run : ∀ (s : Src) (st' : St ν) (s' : Src) (em : List (Emit ν)) (l : Char) (t : List Char),
+        X.skipWs = s → s.inp = l :: t → step N na st s = .cont st' s' em →
+        (loop N na none (fuel + 1) st X.skipWs) =
+          (loop N na none fuel st' s'.skipWs).cons em := by
+      intro s st' s' em l t hs hinp hstep
+      rw [loop_succ, hs]
+      have hf : s.fin = false := by simp [Src.fin, hinp]
+      simp [hf, hstep]
+    cases c with
+    | begin p a =>
+      cases inSub with
+      | true => simp [wellNestedFrom] at hwn
+      | false =>
+        simp only [wellNestedFrom] at hwn
+        simp only [callAttrsOK] at hc
+        subst hc
+        have hX' : X.inp = ' ' :: 'M' :: (printPt pn p ++ (printAttrs pn a ++ printCalls pn r)) := by
+          simp [hX, printCalls, printCall]
+        have hsk := skipWs_space_letter X 'M' _ (by decide) hX'
+        obtain ⟨st', s', em, hstep, hi, hem, hne, hns⟩ :=
+          step_move_print N pn hp st p a _ hbr X.skipWs hsk
+        rw [run _ _ _ _ _ _ rfl hsk hstep]
+        have hlen : s'.inp.length < fuel := by
+          rw [hi]; simp [hX'] at hfuel; omega
+        obtain ⟨ht, ho⟩ := ih true hwn halr fuel st' s' hi hlen (fun _ => hne)
+          (fun h => by rw [hns] at h; cases h)
+        refine ⟨?_, by simpa [Result.cons] using ho⟩
+        rw [trace_cons, ht, hem]
+        simp
+    | line p a =>
+      cases inSub with
+      | false => simp [wellNestedFrom] at hwn
+      | true =>
+        simp only [wellNestedFrom] at hwn
+        simp only [callAttrsOK] at hc
+        subst hc
+        have hne0 := h1 rfl
+        have hns0 : st.needStart = false := by
+          cases h : st.needStart
+          · rfl
+          · have := (h2 h).2; cases this
+        have hX' : X.inp = ' ' :: 'L' :: (printPt pn p ++ (printAttrs pn a ++ printCalls pn r)) := by
+          simp [hX, printCalls, printCall]
+        have hsk := skipWs_space_letter X 'L' _ (by decide) hX'
+        obtain ⟨st', s', em, hstep, hi, hem, hne, hns⟩ :=
+          step_line_print N pn hp st p a _ hbr X.skipWs hns0 hsk
+        rw [run _ _ _ _ _ _ rfl hsk hstep]
+        have hlen : s'.inp.length < fuel := by
+          rw [hi]; simp [hX'] at hfuel; omega
+        obtain ⟨ht, ho⟩ := ih true hwn halr fuel st' s' hi hlen (fun _ => by rw [hne, hne0])
+          (fun h => by rw [hns] at h; cases h)
+        refine ⟨?_, by simpa [Result.cons] using ho⟩
+        rw [trace_cons, ht, hem]
+        simp
+    | quad k p a =>
+      cases inSub with
+      | false => simp [wellNestedFrom] at hwn
+      | true =>
+        simp only [wellNestedFrom] at hwn
+        simp only [callAttrsOK] at hc
+        subst hc
+        have hne0 := h1 rfl
+        have hns0 : st.needStart = false := by
+          cases h : st.needStart
+          · rfl
+          · have := (h2 h).2; cases this
+        have hX' : X.inp = ' ' :: 'Q' :: (printPt pn k ++ (printPt pn p ++
+            (printAttrs pn a ++ printCalls pn r))) := by
+          simp [hX, printCalls, printCall]
+        have hsk := skipWs_space_letter X 'Q' _ (by decide) hX'
+        obtain ⟨st', s', em, hstep, hi, hem, hne, hns⟩ :=
+          step_quad_print N pn hp st k p a _ hbr X.skipWs hns0 hsk
+        rw [run _ _ _ _ _ _ rfl hsk hstep]
+        have hlen : s'.inp.length < fuel := by
+          rw [hi]; simp [hX'] at hfuel; omega
+        obtain ⟨ht, ho⟩ := ih true hwn halr fuel st' s' hi hlen (fun _ => by rw [hne, hne0])
+          (fun h => by rw [hns] at h; cases h)
+        refine ⟨?_, by simpa [Result.cons] using ho⟩
+        rw [trace_cons, ht, hem]
+        simp
+    | cubic k1 k2 p a =>
+      cases inSub with
+      | false => simp [wellNestedFrom] at hwn
+      | true =>
+        simp only [wellNestedFrom] at hwn
+        simp only [callAttrsOK] at hc
+        subst hc
+        have hne0 := h1 rfl
+        have hns0 : st.needStart = false := by
+          cases h : st.needStart
+          · rfl
+          · have := (h2 h).2; cases this
+        have hX' : X.inp = ' ' :: 'C' :: (printPt pn k1 ++ (printPt pn k2 ++ (printPt pn p ++
+            (printAttrs pn a ++ printCalls pn r)))) := by
+          simp [hX, printCalls, printCall]
+        have hsk := skipWs_space_letter X 'C' _ (by decide) hX'
+        obtain ⟨st', s', em, hstep, hi, hem, hne, hns⟩ :=
+          step_cubic_print N pn hp st k1 k2 p a _ hbr X.skipWs hns0 hsk
+        rw [run _ _ _ _ _ _ rfl hsk hstep]
+        have hlen : s'.inp.length < fuel := by
+          rw [hi]; simp [hX'] at hfuel; omega
+        obtain ⟨ht, ho⟩ := ih true hwn halr fuel st' s' hi hlen (fun _ => by rw [hne, hne0])
+          (fun h => by rw [hns] at h; cases h)
+        refine ⟨?_, by simpa [Result.cons] using ho⟩
+        rw [trace_cons, ht, hem]
+        simp
+    | end_ close =>
+      cases inSub with
+      | false => simp [wellNestedFrom] at hwn
+      | true =>
+        simp only [wellNestedFrom] at hwn
+        have hne0 := h1 rfl
+        have hns0 : st.needStart = false := by
+          cases h : st.needStart
+          · rfl
+          · have := (h2 h).2; cases this
+        cases close with
+        | false =>
+          have hX' : X.inp = printCalls pn r := by simpa [printCalls, printCall] using hX
+          obtain ⟨ht, ho⟩ := ih false hwn halr (fuel + 1) st X hX' hfuel (fun h => by cases h)
+            (fun h => by rw [hns0] at h; cases h)
+          refine ⟨?_, ho⟩
+          rw [ht]; simp [hne0]
+        | true =>
+          have hX' : X.inp = ' ' :: 'Z' :: printCalls pn r := by
+            simp [hX, printCalls, printCall]
+          have hsk := skipWs_space_letter X 'Z' _ (by decide) hX'
+          obtain ⟨st', s', em, hstep, hi, hem, hne, hns⟩ :=
+            step_close_print N na st _ X.skipWs hns0 hsk
+          rw [run _ _ _ _ _ _ rfl hsk hstep]
+          have hlen : s'.inp.length < fuel := by
+            rw [hi]; simp [hX'] at hfuel; omega
+          obtain ⟨ht, ho⟩ := ih false hwn halr fuel st' s' hi hlen (fun h => by cases h)
+            (fun _ => ⟨hne, rfl⟩)
+          refine ⟨?_, by simpa [Result.cons] using ho⟩
+          rw [trace_cons, ht, hem]
+          simp [hne]
+
+
+set_option linter.unusedSimpArgs false
+
+/-! ### H. The shapes `<f32 as Debug>::fmt` prints for finite values are single valid tokens -/
+
+theorem digit_range {c : Char} (h : c.isDigit = true) : 48 ≤ c.toNat ∧ c.toNat ≤ 57 := by
+  simp only [Char.isDigit, Bool.and_eq_true, decide_eq_true_eq] at h
+  exact ⟨UInt32.le_iff_toNat_le.mp h.1, UInt32.le_iff_toNat_le.mp h.2⟩
+
+theorem digit_numeric {c : Char} (h : c.isDigit = true) : isNumeric c = true := by
+  simp [isNumeric, h]
+
+theorem digit_not_sep {c : Char} (h : c.isDigit = true) : isSep c = false := by
+  have r := digit_range h
+  have hc : c ≠ ',' := by intro e; subst e; revert h; decide
+  simp only [isSep, isWhite, isWhiteN, Bool.or_eq_false_iff, beq_eq_false_iff_ne, ne_eq]
+  refine ⟨?_, hc⟩
+  simp only [Bool.or_eq_false_iff, Bool.and_eq_false_iff, decide_eq_false_iff_not,
+    beq_eq_false_iff_ne]
+  omega
+
+/-- a non-empty run of ASCII digits -/
+def Digits (d : List Char) : Prop := d ≠ [] ∧ ∀ c ∈ d, c.isDigit = true
+
+/-- the list is empty or starts with a character failing `p` -/
+def StopsAt (p : Char → Bool) : List Char → Prop
+  | [] => True
+  | c :: _ => p c = false
+
+theorem takeWhile_app (p : Char → Bool) (a b : List Char) (ha : ∀ c ∈ a, p c = true)
+    (hb : StopsAt p b) : (a ++ b).takeWhile p = a ∧ (a ++ b).dropWhile p = b := by
+  induction a with
+  | nil =>
+    cases b with
+    | nil => simp
+    | cons c r => simp only [StopsAt] at hb; simp [List.takeWhile, List.dropWhile, hb]
+  | cons x r ih =>
+    have hx := ha x (by simp)
+    have := ih (fun c hc => ha c (by simp [hc]))
+    simp [List.takeWhile, List.dropWhile, hx, this.1, this.2]
+
+def signL (neg : Bool) : List Char := if neg then ['-'] else []
+def fracL : Option (List Char) → List Char
+  | none => []
+  | some d => '.' :: d
+def expL : Option (Bool × List Char) → List Char
+  | none => []
+  | some (n, d) => 'e' :: (signL n ++ d)
+
+/-- `-? D+ (. D+)? (e -? D+)?` — covers everything `{:?}` prints for a finite `f32`
+(`-? D+ . D+` and `-? D (. D+)? e -? D+`) -/
+def debugText (neg : Bool) (d1 : List Char) (f : Option (List Char))
+    (e : Option (Bool × List Char)) : List Char :=
+  signL neg ++ (d1 ++ (fracL f ++ expL e))
+
+structure ShapeOK (d1 : List Char) (f : Option (List Char)) (e : Option (Bool × List Char)) :
+    Prop where
+  int : Digits d1
+  frac : ∀ d, f = some d → Digits d
+  exp : ∀ n d, e = some (n, d) → Digits d
+
+theorem digits_head {d : List Char} (h : Digits d) : ∃ c r, d = c :: r ∧ c.isDigit = true := by
+  cases d with
+  | nil => exact absurd rfl h.1
+  | cons c r => exact ⟨c, r, rfl, h.2 c (by simp)⟩
+
+theorem boundary_stops {rest : List Char} (hb : Boundary rest) (p : Char → Bool)
+    (hp : p ' ' = false) : StopsAt p rest := by
+  rcases hb with rfl | ⟨r, rfl⟩
+  · trivial
+  · exact hp
+
+/-- sign and digits followed by something that is not numeric: `lexMantL` takes exactly them -/
+theorem lexMantL_sign_digits (neg : Bool) (d tail : List Char) (hd : Digits d)
+    (ht : StopsAt isNumeric tail) :
+    lexMantL (signL neg ++ (d ++ tail)) = (signL neg ++ d, tail) := by
+  obtain ⟨c, r, rfl, hc⟩ := digits_head hd
+  have hcm : (c == '-') = false := by
+    cases h : (c == '-')
+    · rfl
+    · have : c = '-' := by simpa using h
+      subst this; revert hc; decide
+  have tw := takeWhile_app isNumeric (c :: r) tail (fun x hx => digit_numeric (hd.2 x hx)) ht
+  cases neg
+  · simp only [lexMantL, signL, Bool.false_eq_true, if_false, List.nil_append, List.cons_append,
+      optL, hcm, digitsL]
+    rw [← List.cons_append, tw.1, tw.2]
+  · simp only [lexMantL, signL, if_true, List.cons_append, List.nil_append, optL,
+      beq_self_eq_true, digitsL]
+    rw [← List.cons_append, tw.1, tw.2]
+
+theorem stops_frac_exp (f : Option (List Char)) (e : Option (Bool × List Char)) (rest : List Char)
+    (hb : Boundary rest) : StopsAt isNumeric (fracL f ++ (expL e ++ rest)) := by
+  cases f with
+  | some d => simp only [fracL, List.cons_append, StopsAt]; decide
+  | none =>
+    cases e with
+    | some nd => obtain ⟨n, d⟩ := nd; simp only [fracL, expL, List.nil_append, List.cons_append, StopsAt]; decide
+    | none => simpa [fracL, expL] using boundary_stops hb isNumeric (by decide)
+
+theorem stops_exp (e : Option (Bool × List Char)) (rest : List Char) (hb : Boundary rest) :
+    StopsAt isNumeric (expL e ++ rest) := by
+  cases e with
+  | some nd => obtain ⟨n, d⟩ := nd; simp only [expL, List.cons_append, StopsAt]; decide
+  | none => simpa [expL] using boundary_stops hb isNumeric (by decide)
+
+theorem lexFracL_frac (f : Option (List Char)) (e : Option (Bool × List Char)) (rest : List Char)
+    (hf : ∀ d, f = some d → Digits d) (hb : Boundary rest) :
+    lexFracL (fracL f ++ (expL e ++ rest)) = (fracL f, expL e ++ rest) := by
+  cases f with
+  | some d =>
+    have hd := hf d rfl
+    have tw := takeWhile_app isNumeric d (expL e ++ rest)
+      (fun x hx => digit_numeric (hd.2 x hx)) (stops_exp e rest hb)
+    simp only [fracL, List.cons_append, lexFracL, beq_self_eq_true, if_true, digitsL, tw.1, tw.2]
+  | none =>
+    cases e with
+    | some nd =>
+      obtain ⟨n, d⟩ := nd
+      have : ('e' == '.') = false := by decide
+      simp [fracL, expL, lexFracL, this]
+    | none =>
+      rcases hb with rfl | ⟨r, rfl⟩
+      · simp [fracL, expL, lexFracL]
+      · have : (' ' == '.') = false := by decide
+        simp [fracL, expL, lexFracL, this]
+
+theorem lexExpL_exp (e : Option (Bool × List Char)) (rest : List Char)
+    (he : ∀ n d, e = some (n, d) → Digits d) (hb : Boundary rest) :
+    lexExpL (expL e ++ rest) = (expL e, rest) := by
+  cases e with
+  | some nd =>
+    obtain ⟨n, d⟩ := nd
+    have hd := he n d rfl
+    have hm := lexMantL_sign_digits n d rest hd (boundary_stops hb isNumeric (by decide))
+    have : ('e' == 'e' || 'e' == 'E') = true := by decide
+    simp only [expL, List.cons_append, lexExpL, this, if_true, List.append_assoc, hm]
+  | none =>
+    rcases hb with rfl | ⟨r, rfl⟩
+    · simp [expL, lexExpL]
+    · have : (' ' == 'e' || ' ' == 'E') = false := by decide
+      simp [expL, lexExpL, this]
+
+/-- a number of the printed shape, followed by a space or nothing, is exactly one lexer token -/
+theorem lexNumL_debugText (neg : Bool) (d1 : List Char) (f : Option (List Char))
+    (e : Option (Bool × List Char)) (h : ShapeOK d1 f e) (rest : List Char) (hb : Boundary rest) :
+    lexNumL (debugText neg d1 f e ++ rest) = (debugText neg d1 f e, rest) := by
+  have e1 : debugText neg d1 f e ++ rest = signL neg ++ (d1 ++ (fracL f ++ (expL e ++ rest))) := by
+    simp [debugText, List.append_assoc]
+  have hm := lexMantL_sign_digits neg d1 _ h.int (stops_frac_exp f e rest hb)
+  have hf := lexFracL_frac f e rest h.frac hb
+  have he := lexExpL_exp e rest h.exp hb
+  rw [e1]
+  simp only [lexNumL, hm, hf, he, debugText, List.append_assoc]
+
+
+theorem stopsDigit_exp (e : Option (Bool × List Char)) : StopsAt Char.isDigit (expL e) := by
+  cases e with
+  | some nd => obtain ⟨n, d⟩ := nd; simp only [expL, StopsAt]; decide
+  | none => trivial
+
+theorem digit_not_sign {c : Char} (h : c.isDigit = true) : (c == '-' || c == '+') = false := by
+  cases hc : (c == '-' || c == '+')
+  · rfl
+  · rcases (by simpa using hc : c = '-' ∨ c = '+') with e | e <;> (subst e; revert h; decide)
+
+theorem validExp_expL (e : Option (Bool × List Char))
+    (he : ∀ n d, e = some (n, d) → Digits d) : validExp (expL e) = true := by
+  cases e with
+  | none => rfl
+  | some nd =>
+    obtain ⟨n, d⟩ := nd
+    have hd := he n d rfl
+    obtain ⟨c, r, rfl, hc⟩ := digits_head hd
+    have hall : (c :: r).all Char.isDigit = true := by
+      simp only [List.all_eq_true]; exact hd.2
+    have e1 : ('e' == 'e' || 'e' == 'E') = true := by decide
+    cases n
+    · simp only [expL, signL, Bool.false_eq_true, if_false, List.nil_append, validExp, e1,
+        Bool.true_and, digit_not_sign hc]
+      exact hall
+    · have e2 : ('-' == '-' || '-' == '+') = true := by decide
+      simp only [expL, signL, if_true, List.cons_append, List.nil_append, validExp, e1,
+        Bool.true_and, e2]
+      simp [hall]
+
+theorem validF32_debugText (neg : Bool) (d1 : List Char) (f : Option (List Char))
+    (e : Option (Bool × List Char)) (h : ShapeOK d1 f e) :
+    validF32 (debugText neg d1 f e) = true := by
+  obtain ⟨c, r, rfl, hc⟩ := digits_head h.int
+  have hds : dropSign (debugText neg (c :: r) f e) = (c :: r) ++ (fracL f ++ expL e) := by
+    cases neg
+    · simp [debugText, signL, dropSign, digit_not_sign hc]
+    · have : ('-' == '-' || '-' == '+') = true := by decide
+      simp [debugText, signL, dropSign, this]
+  have hdig : ∀ x ∈ c :: r, Char.isDigit x = true := h.int.2
+  have hsm : splitMant ((c :: r) ++ (fracL f ++ expL e)) =
+      (c :: r, (f.getD []), expL e) := by
+    cases f with
+    | some d =>
+      have hd := h.frac d rfl
+      have tw1 := takeWhile_app Char.isDigit (c :: r) ('.' :: (d ++ expL e)) hdig (by
+        simp only [StopsAt]; decide)
+      have tw2 := takeWhile_app Char.isDigit d (expL e) hd.2 (stopsDigit_exp e)
+      simp only [splitMant, fracL, List.cons_append] at tw1 ⊢
+      rw [tw1.1, tw1.2]
+      simp [tw2.1, tw2.2, Option.getD]
+    | none =>
+      have tw1 := takeWhile_app Char.isDigit (c :: r) (expL e) hdig (stopsDigit_exp e)
+      simp only [splitMant, fracL, List.nil_append] at tw1 ⊢
+      rw [tw1.1, tw1.2]
+      cases e with
+      | none => simp [expL, Option.getD]
+      | some nd =>
+        obtain ⟨n, d⟩ := nd
+        have : ('e' == '.') = false := by decide
+        simp [expL, this, Option.getD]
+  unfold validF32
+  rw [hds, hsm]
+  simp only [validExp_expL e h.exp, Bool.and_true, List.length_cons, decide_eq_true_eq]
+  omega
+
+theorem head_debugText (neg : Bool) (d1 : List Char) (f : Option (List Char))
+    (e : Option (Bool × List Char)) (h : ShapeOK d1 f e) :
+    ∃ c l, debugText neg d1 f e = c :: l ∧ isSep c = false := by
+  obtain ⟨c, r, rfl, hc⟩ := digits_head h.int
+  cases neg
+  · exact ⟨c, r ++ (fracL f ++ expL e), by simp [debugText, signL], digit_not_sep hc⟩
+  · exact ⟨'-', c :: r ++ (fracL f ++ expL e), by simp [debugText, signL], by decide⟩
+
+/-- `PrintOK` reduces to: every printed number has the shape `-? D+ (. D+)? (e -? D+)?` and reads
+back as the same value. -/
+theorem printOK_of_debugShape (N : Num ν) (pn : ν → List Char)
+    (hshape : ∀ x, ∃ neg d1 f e, pn x = debugText neg d1 f e ∧ ShapeOK d1 f e)
+    (hval : ∀ x, N.ofLexeme (pn x) = x) : PrintOK N pn := by
+  constructor
+  · intro x; obtain ⟨neg, d1, f, e, hx, hs⟩ := hshape x; rw [hx]; exact validF32_debugText _ _ _ _ hs
+  · exact hval
+  · intro x; obtain ⟨neg, d1, f, e, hx, hs⟩ := hshape x; rw [hx]; exact head_debugText _ _ _ _ hs
+  · intro x rest hb
+    obtain ⟨neg, d1, f, e, hx, hs⟩ := hshape x; rw [hx]
+    exact lexNumL_debugText _ _ _ _ hs rest hb
+
 
 end Lyon.Parser
